@@ -139,6 +139,8 @@ def run(chk):
         cases.append("unsigned char x, y;\nvoid f();\nvoid g(char a) { }\nvoid main() { %s }\n" % s)
         cases.append("unsigned char x;\n%s\nvoid main() { }\n" % s)
     cases += context_cases()
+    import idioms
+    cases += [idioms.wrap(st) for st in idioms.statements()]      # operand kind x assignment form x right operand
     for d in DIRECTIVES:
         cases.append("char a;\n%s\nvoid main() { a = 1; }\n" % d)
         cases.append("%s\n" % d)
